@@ -111,6 +111,20 @@ pub enum Motif {
         p3_right: bool,
         blocker_kind: u8,
     },
+    /// The mover's only candidate move is an en-passant capture: its king has no flight square
+    /// (enemy pieces are added greedily until every neighbour is covered), the capturing pawn is
+    /// blocked, and - unless `with_slider` is false - an enemy bishop/queen stands behind the
+    /// victim pawn on the king's diagonal, so the capture is illegal and the position stalemate.
+    EpStalemate {
+        black: bool,
+        file: u8,
+        capturer_right: bool,
+        dir: u8,
+        dk: u8,
+        ds: u8,
+        with_slider: bool,
+        queen: bool,
+    },
     /// King near an edge with a few enemy pieces close by: mates and stalemates.
     Net {
         black: bool,
@@ -546,6 +560,73 @@ fn apply_motif(b: &mut Builder, m: &Motif, h: &mut Hints) {
             b.put(kf, r0 + 2 * u, Kind::P, us);
             b.put(kf + if *p3_right { 1 } else { -1 }, r0 + 2 * u, Kind::P, us);
         }
+        Motif::EpStalemate { black, file, capturer_right, dir, dk, ds, with_slider, queen } => {
+            let us = side_of(*black);
+            let them = us.other();
+            h.stm = Some(us);
+            let f = 1 + *file as i32 % 6;
+            let (r4, r3) = if them == Side::W { (3, 2) } else { (4, 5) };
+            let fwd = us.fwd();
+            b.put(f, r4, Kind::P, them);
+            h.ep_file = Some(f as u8);
+            let cf = f + if *capturer_right { 1 } else { -1 };
+            b.put(cf, r4, Kind::P, us);
+            // block the capturer's push
+            b.put(cf, r4 + fwd, Kind::P, them);
+            // our king on a diagonal through the victim, their slider on the other side
+            let (df, dr) = [(1, 1), (1, -1), (-1, -1), (-1, 1)][*dir as usize % 4];
+            let dk = 1 + *dk as i32 % 4;
+            let ds = 1 + *ds as i32 % 4;
+            b.put(f + df * dk, r4 + dr * dk, Kind::K, us);
+            if *with_slider {
+                b.put(f - df * ds, r4 - dr * ds, if *queen { Kind::Q } else { Kind::B }, them);
+            }
+            let Some(k) = b.st.king_sq(us) else { return };
+            // their king far away from ours
+            let far = if rank_of(k) < 4 { 7 } else { 0 };
+            for tf in [0, 7, 3, 4] {
+                if b.put(tf, far, Kind::K, them) {
+                    break;
+                }
+            }
+            // cover every flight square of our king without giving check and without touching
+            // the squares the en-passant capture depends on
+            let reserved: Vec<Sq> = vec![sq(f, r4), sq(f, r3), sq(cf, r4), sq(cf, r4 + fwd)];
+            let view = |st: &RawState| Pos { board: st.board, stm: us, rights: [[None; 2]; 2], ep: None, hm: 0, fm: 1 };
+            for (ddf, ddr) in DIRS8 {
+                let (nf, nr) = (file_of(k) + ddf, rank_of(k) + ddr);
+                if !on_board(nf, nr) {
+                    continue;
+                }
+                let target = sq(nf, nr);
+                let p = view(&b.st);
+                if matches!(p.board[target as usize], Some((_, c)) if c == us) || p.attacked(target, them) {
+                    continue;
+                }
+                'search: for kind in [Kind::R, Kind::N, Kind::B, Kind::P] {
+                    for cand in 0..64u8 {
+                        let c = (cand as usize * 37 + *dir as usize * 11) as u8 % 64; // deterministic spread
+                        if b.st.board[c as usize].is_some() || reserved.contains(&c) || c == target {
+                            continue;
+                        }
+                        if kind == Kind::P && (rank_of(c) == 0 || rank_of(c) == 7) {
+                            continue;
+                        }
+                        let mut trial = b.st.clone();
+                        trial.board[c as usize] = Some((kind, them));
+                        let tp = view(&trial);
+                        // must cover the flight square, must not check our king, must not disturb the EP line
+                        let mut lifted = tp.clone();
+                        lifted.board[k as usize] = None;
+                        if lifted.attacked(target, them) && !tp.attacked(k, them) {
+                            if b.put(file_of(c), rank_of(c), kind, them) {
+                                break 'search;
+                            }
+                        }
+                    }
+                }
+            }
+        }
         Motif::Net { black, ksq, pieces, enemy_k } => {
             let us = side_of(*black);
             let them = us.other();
@@ -693,6 +774,8 @@ fn arb_motif() -> impl Strategy<Value = Motif> {
             .prop_map(|(black, file, dir, dk, ds, queen, capturers)| Motif::PreEp { black, file, dir, dk, ds, queen, capturers }),
         1 => (any::<bool>(), 0u8..64, 0u8..8, 0u8..6, 0u8..6, any::<bool>(), 0u8..6, 0u8..4, 0u8..8)
             .prop_map(|(black, ksq, dir, dist, blocker_dist, slider_queen, blocker_kind, corner, boxed)| Motif::Battery { black, ksq, dir, dist, blocker_dist, slider_queen, blocker_kind, corner, boxed }),
+        1 => (any::<bool>(), 0u8..6, any::<bool>(), 0u8..4, 0u8..4, 0u8..4, proptest::bool::weighted(0.75), any::<bool>())
+            .prop_map(|(black, file, capturer_right, dir, dk, ds, with_slider, queen)| Motif::EpStalemate { black, file, capturer_right, dir, dk, ds, with_slider, queen }),
         1 => (any::<bool>(), any::<bool>(), 0u8..5, 0u8..2, any::<bool>(), 0u8..4)
             .prop_map(|(black, right_corner, d, kf, p3_right, blocker_kind)| Motif::BatteryStalemate { black, right_corner, d, kf, p3_right, blocker_kind }),
         1 => (any::<bool>(), 0u8..6, any::<[u8; 8]>(), vec((any::<u8>(), 0u8..32), 5), 0u8..8)
@@ -749,6 +832,10 @@ pub enum Start {
     Seed(usize),
     /// Constructed through the builder
     Built(Box<Ingredients>),
+    /// A constructed state with 1..3 edits towards (or over) the edge of validity; used when the
+    /// library accepts it. On a correct library these are ordinary valid boards; under a
+    /// weakened validator they are the boards that should not exist.
+    Edited(Box<crate::gen2::EditedState>),
 }
 
 #[derive(Clone, Debug)]
@@ -774,6 +861,7 @@ pub fn arb_start(w_dfrc: u32, w_seed: u32, w_built: u32) -> impl Strategy<Value 
         ],
         w_seed => (0..n).prop_map(Start::Seed),
         w_built => arb_ingredients().prop_map(|i| Start::Built(Box::new(i))),
+        (w_built / 3).max(1) => crate::gen2::arb_edited_state().prop_map(|e| Start::Edited(Box::new(e))),
     ]
 }
 
@@ -823,6 +911,11 @@ pub fn start_board(start: &Start) -> Option<(Board, String)> {
                 let t = format!("{:#}", b);
                 (b, t)
             })
+        }
+        Start::Edited(es) => {
+            let st = es.state();
+            // the raw state is kept as the origin: the board's own text may not re-enter
+            build(&st).map(|b| (b, format!("bstate:{}", st.text())))
         }
     }
 }
